@@ -152,6 +152,25 @@ def check(case):
                         out.add("C08/group-aggregate/%s%s" % (a["f"], "/inside-function" if a.get("wrap") else ""), query=gq,
                                 key=list(kt), column=sel_text(case, s),
                                 cell=r[si], reference=str(float(ref)) if ref is not None else None, members=n, why=why)
+        # the keys need not be displayed: one row per group all the same (`select count(*) ... group by ext`)
+        ints_only = [a for a in aggs if a["f"] in INT_AGGS and not a.get("wrap")] or [{"f": "count", "spell": "count", "inner": "*", "upper": False}]
+        hq = "select " + ", ".join(c07.agg_text(a) for a in ints_only) + tail + " group by " + ", ".join(keys) + " into list"
+        hrows = c05.run_rows(out, base, hq, len(ints_only), "C08")
+        if hrows is not None and ok_inner:
+            wantrows = collections.Counter()
+            for kt, members in parts.items():
+                n = len(members)
+                cells = []
+                for a in ints_only:
+                    v = list(range(n)) if a["inner"] == "*" else [m[inners.index(a["inner"])] for m in members]
+                    ref = n if a["f"] == "count" else c07.reference(a["f"], v)
+                    cells.append(None if ref is None else str(int(ref)))
+                wantrows[tuple(cells)] += 1
+            if len(hrows) != len(parts):
+                out.add("C08/hidden-keys/row-count", query=hq, rows=len(hrows), groups=len(parts))
+            elif not any(None in k for k in wantrows) and collections.Counter(hrows) != wantrows:
+                out.add("C08/hidden-keys/aggregates", query=hq, got=[list(r) for r in hrows][:6], want=[list(k) for k in wantrows][:6])
+            out.classes.append("keys-not-displayed")
         # conservation against the ungrouped aggregate query
         cons = [("count", "*")] + [("sum", i) for i in inners]
         cq = "select " + ", ".join("%s(%s)" % c for c in cons) + tail + " into list"
